@@ -23,6 +23,8 @@ MOD = "vf.checks.c16"
 SHAPES = [(), (1,), (1, 1), (0,), (0, 3), (3,), (2, 3), (2, 1, 3), (4,), (1, 4), (2, 2), (3, 0)]
 UNITS = ["m", "km", "g", "s", "K", "dimensionless", "m/s", "kg*m**2/s**2", "degC", "rad", "percent"]
 LEN_UNITS = ["m", "cm", "km", "inch", "ft", "mile", "mm"]
+MIX_FAMILIES = [LEN_UNITS, LEN_UNITS, ["K", "degC", "degF", "R", "mK"], ["J", "erg", "eV", "kJ", "BTU"], ["s", "min", "hr", "ms", "day"], ["g", "kg", "lb", "Msun"],
+                ["rad", "degree", "arcmin"]]
 INDEX_FORMS = ["int", "slice", "ellipsis", "newaxis", "bool", "fancy", "0dbool", "negint", "tuple", "step", "emptyslice", "fullbool", "all+ellipsis", "ellipsis+all", "all-axes", "int+ellipsis"]
 
 
@@ -33,7 +35,7 @@ def case(draw):
     vals = [draw(st.integers(-40, 40)) / 4 for _ in range(n)]
     return {"shape": list(shape), "values": vals, "unit": draw(st.sampled_from(UNITS)), "dtype": draw(st.sampled_from(["float64", "float64", "int64", "float32"])),
             "name": draw(st.sampled_from([None, "density", "x"])), "index": draw(st.sampled_from(INDEX_FORMS)), "i": draw(st.integers(0, 5)),
-            "mixed": [draw(st.sampled_from(LEN_UNITS)) for _ in range(draw(st.integers(2, 4)))], "mixvals": [draw(st.integers(-40, 40)) / 4 for _ in range(4)]}
+            "mixed": (lambda fam: [draw(st.sampled_from(fam)) for _ in range(draw(st.integers(2, 4)))])(draw(st.sampled_from(MIX_FAMILIES))), "mixvals": [draw(st.integers(-40, 40)) / 4 for _ in range(4)]}
 
 
 def _is_unyt(x):
@@ -92,6 +94,24 @@ def judge(c, part):
             bad(f"multiply-by-unit-not-a-copy:{nm}")
         if np.shape(r) != shape and not (nm == "Unit*list" and base.size == 0):
             bad(f"shape-changed:{nm}", got=np.shape(r))
+    # data that already carries units, multiplied by a Unit object: a copy as well (mutating either side later leaves the other alone)
+    for nm, mk in (("unyt_array*Unit", lambda x: x * Unit("s")), ("Unit*unyt_array", lambda x: Unit("s") * x), ("unyt_array/Unit", lambda x: x / Unit("s")),
+                   ("unyt_array*dimensionless Unit", lambda x: x * Unit("dimensionless"))):
+        src = unyt_array(base.copy(), u) if shape != () else unyt_quantity(base.item(), u)
+        part.ev()
+        try:
+            r = mk(src)
+        except Exception:
+            continue  # refusals (logarithmic, offset units) are C08/C01 territory
+        if not class_ok(r):
+            bad(f"class-shape:{nm}", got=type(r).__name__, result_shape=np.shape(r))
+        if base.size and np.shares_memory(r, src):
+            bad(f"multiply-by-unit-not-a-copy:{nm}")
+        elif base.size:
+            before = np.asarray(r).copy()
+            np.asarray(src)[...] = 77
+            if not np.array_equal(np.asarray(r), before, equal_nan=True):
+                bad(f"multiply-by-unit-not-a-copy:{nm}:write-through")
     if shape == ():
         q = unyt_quantity(base.item(), u, name=c["name"])
         if not class_ok(q) or q.shape != ():
@@ -292,9 +312,13 @@ def judge(c, part):
         if str(r.units) != str(Unit(mu[0])) or r.units != Unit(mu[0]):
             bad(f"mixed-list-unit:{nm}", got=r.units, want=mu[0])
             continue
-        s0 = float(R.atom(mu[0])[0])
-        want = [v * float(R.atom(uu)[0]) / s0 for v, uu in zip(mv, mu)]
-        if not np.allclose(np.asarray(r, dtype=float), want, rtol=1e-12, atol=0):
+        s0, _, o0 = R.atom(mu[0])
+        s0, o0 = float(s0), float(o0)
+        # SI = scale * (reading - offset): the table's convention (offset 0 except for degC/degF)
+        # scales are the library's own (their values are C02's subject); zero points come from the independent table
+        s0 = float(Unit(mu[0]).base_value)
+        want = [float(Unit(uu).base_value) * (v - float(R.atom(uu)[2])) / s0 + o0 for v, uu in zip(mv, mu)]
+        if not np.allclose(np.asarray(r, dtype=float), want, rtol=1e-12, atol=1e-10 if (o0 or any(float(R.atom(uu)[2]) for uu in mu)) else 0):
             bad(f"mixed-list-values:{nm}", got=r, want=want, units=mu)
         else:
             if len(set(mu)) > 1:
@@ -343,7 +367,7 @@ def run(ctx):
     ctx.assumptions = [
         "class invariant asserted as: unyt_quantity <=> ndim == 0",
         "basic indexing (int/slice/ellipsis/newaxis/tuple of ints giving ndim>0) must be a view; boolean and fancy indexing copy, as in NumPy",
-        "mixed-list expectation uses scales from vf/oracle/table.py",
+        "mixed-list expectation uses the library's own scales (their values are C02's subject) and the zero points of vf/oracle/table.py",
     ]
     n = ctx.pick(4800, 96000)
     ctx.merge(core.pmap(MOD, "part_random", [{"n": n // 16, "seed": ctx.seed * 1000 + i} for i in range(16)]))
